@@ -213,5 +213,6 @@ func C05(c *core.Ctx) {
 	c.Trust("go/ssa lowering of the function; the summaries listed in trusted_base are not needed by this function")
 	ruleCNorm(c)
 	c05Families(c)
+	runCompositions(c, ruleSet("A-REJ", "A-NOEXTRA", "A-NILG"), "minimum", "maximum", "bound")
 	c.Floor("families", c.Counts["members"], 300, "family members")
 }
